@@ -230,7 +230,9 @@ def run(rep):
         if not explorable:
             wd2 = wd
     mprun.validate_model(progs, recs)
-    opts = (rp.OPTION_SETS if tier == 'thorough' else rp.OPTION_SETS[:1] + rp.OPTION_SETS[3:4]) + [rp.LISTS_OPTION]
+    # thorough: three option sets on every program, the two EQUALITY_OPERATORS / BUILTIN_FUNCTIONS sets on every fourth one
+    thorough = [rp.OPTION_SETS[0], rp.OPTION_SETS[1], rp.OPTION_SETS[3], dict(rp.OPTION_SETS[2], every=4), dict(rp.OPTION_SETS[4], every=4)]
+    opts = (thorough if tier == 'thorough' else rp.OPTION_SETS[:1] + rp.OPTION_SETS[3:4]) + [rp.LISTS_OPTION]
     div, nrun, errs = rp.replay_all(progs, recs, opts, name='c01')
     rep.set('programs', len(progs))
     rep.set('executions', len(recs))
